@@ -21,6 +21,7 @@ RULE = ('Programs as in C02 (origins, zones, muted regions, predefined data bloc
 ASSUMPTIONS = [
     'end >= start; when -e is omitted the window start is not beyond the last emitted byte (otherwise unspecified)',
     'windows are bounded to 128 KiB by the harness',
+    'an #unmute/#emit while nothing is muted has no effect: the mute depth never goes below zero (pinned from the tree, no document states it)',
 ]
 BUDGET = {'quick': 4000, 'thorough': 200000}
 LEVEL_TEXT = ('Exploration: window arithmetic must be right for every combination of line extents and bounds; the '
@@ -85,7 +86,12 @@ def _cases(draw, tier):
             start, end = end, start
         if min(x[0] for x in ext) == 0 and draw(st.integers(0, 5)) == 0:
             start, end = 0, 0        # the smallest explicit window
-    return {'isa': cfg, 'items': b.items, 'start': start, 'end': end, 'fill': draw(st.integers(0, 255)),
+    items = b.items
+    if not b.lay.blocks and draw(st.integers(0, 11)) == 0:
+        # the whole program muted: addresses are assigned, nothing reaches the image
+        items = [{'t': 'mute', 'kw': 'mute'}] + items
+        feats.add('everything-muted')
+    return {'isa': cfg, 'items': items, 'start': start, 'end': end, 'fill': draw(st.integers(0, 255)),
             'feats': sorted(feats), 'stale_output': draw(st.integers(0, 3)) == 0}
 
 
@@ -96,6 +102,11 @@ def strategy(tier):
 def classify_window(lay, start, end):
     cl = set()
     lines = [ln for ln in lay.lines if ln['has_bytes'] and ln['size'] > 0] + [b for b in lay.blocks if b['size'] > 0]
+    if not lay.memory:
+        # nothing emitted at all (everything muted, or no byte-producing line): an explicit window is all fill
+        return {'explicit-window-over-a-program-that-emits-nothing'} | \
+            ({'muted-line-in-window'} if any(ln['muted'] and ln['addr'] <= end and ln['addr'] + ln['size'] - 1 >= start
+                                             for ln in lines) else set())
     eff_end = end if end is not None else max(lay.memory)
     for ln in lines:
         s, e = ln['addr'], ln['addr'] + ln['size'] - 1
@@ -129,8 +140,8 @@ def execute(case, ctx):
         cfg, isa, fname, files, verdict, lay = run_layout_case(ID, case)
         if verdict != 'accepted':
             return Outcome(classes=['program-rejected-by-model'], evals=0)
-        if not lay.memory:
-            return Outcome(classes=['no-bytes'], evals=0)
+        if not lay.memory and case['end'] is None:
+            return Outcome(classes=['no-bytes-and-no-explicit-end'], evals=0)
         want = lay.image(case['start'], case['end'], case['fill'])
     except R.Unspecified as u:
         return Outcome(classes=['unspecified:' + str(u).split(':')[0]], evals=0, excluded=['unspecified: ' + str(u).split(':')[0]])
@@ -171,6 +182,7 @@ def execute(case, ctx):
                 sig = 'C03/wrong-content'
             findings.append(Finding(sig, detail))
     nt = bool(cl & {'start-inside-line', 'end-inside-line', 'gap-in-window', 'muted-line-in-window',
+                    'explicit-window-over-a-program-that-emits-nothing',
                     'predefined-block-in-window', 'default-end-with-trailing-non-emitting-lines'})
     classes = ['outcome:' + res.klass] + ['win:' + c for c in sorted(cl)] + (['stale-output-file-present'] if case.get('stale_output') else [])
     sample = {'source': files['main.asm'], 'argv': argv, 'window_classes': sorted(cl), 'expected_len': len(want)}
